@@ -611,6 +611,48 @@ theorem d_rTables : ∀ (l : List TName) (first : Bool), CS (rTables first l) :=
     simp only [rTables]
     exact CS.app (CT.appS (ct_sep first ", " (by decide)) (d_rTable 3 c)) (ih false) (h_rTables r)
 
+theorem h_rStrVs (l : List String) : okK (hK (rStrVs false l)) = true := by cases l <;> ev [rStrVs]
+theorem d_rStrVs : ∀ (l : List String) (first : Bool), CF first (rStrVs first l) := by
+  intro l
+  induction l with
+  | nil => intro first pw k _ _; rfl
+  | cons v r ih =>
+    intro first pw k hpw hk
+    have ih' : ∀ pw k, okK k = true → ctx pw k (rStrVs false r) = true := fun pw k hk => ih false pw k (by simp) hk
+    have hh := h_rStrVs r
+    cases first
+    · ev [rStrVs, strV]
+    · have := hpw rfl; subst this; ev [rStrVs, strV]
+
+theorem h_rTypeRefs (l : List (List String)) : okK (hK (rTypeRefs false l)) = true := by cases l <;> ev [rTypeRefs]
+theorem d_rTypeRefs : ∀ (l : List (List String)) (first : Bool), CS (rTypeRefs first l) := by
+  intro l
+  induction l with
+  | nil => intro first; exact CS_nil
+  | cons c r ih =>
+    intro first
+    simp only [rTypeRefs]
+    exact CS.app (CT.appS (ct_sep first ", " (by decide)) (c_rParts c true)) (ih false) (h_rTypeRefs r)
+
+theorem d_rTypeAlterOpt (o : TypeAlterOpt) : CS (rTypeAlterOpt o) := by
+  cases o with
+  | add v pl ine =>
+    simp only [rTypeAlterOpt]
+    have h1 : CTE ([S " ADD VALUE "] ++ if ine = true then [S "IF NOT EXISTS "] else []) :=
+      CTE.appK (by intro pw k; ev) (CT_ite (by intro pw k; ev) CT_nil) (by cases ine <;> ev)
+    have h2 : CU [strV v] := by intro pw k hpw hk; subst hpw; ev [strV]
+    have h3h : okK (hK (match (generalizing := false) pl with | some (false, b) => [S " BEFORE ", strV b] | some (true, a) => [S " AFTER ", strV a] | none => [])) = true := by
+      cases pl with
+      | none => rfl
+      | some q => obtain ⟨x, y⟩ := q; cases x <;> ev
+    have h3 : CS (match (generalizing := false) pl with | some (false, b) => [S " BEFORE ", strV b] | some (true, a) => [S " AFTER ", strV a] | none => []) := by
+      cases pl with
+      | none => exact CS_nil
+      | some q => obtain ⟨x, y⟩ := q; cases x <;> (intro pw k hk; ev [strV])
+    exact CS.app (CTE.appU h1 h2) h3 h3h
+  | rename n => intro pw k hk; ev [rTypeAlterOpt, strV]
+  | renameValue a b => intro pw k hk; ev [rTypeAlterOpt, strV]
+
 /-- **everything the schema-statement renderer writes satisfies the context discipline** -/
 theorem d_rStmt (d : Backend) (s : Ddl.Stmt) : CS (rStmt d s) := by
   cases s <;> simp only [rStmt]
@@ -629,5 +671,48 @@ theorem d_rStmt (d : Backend) (s : Ddl.Stmt) : CS (rStmt d s) := by
   case indexDrop n t ie => exact d_rIndexDrop d n t ie
   case fkCreate f => exact d_rFkCreate d 1 f
   case fkDrop n t => exact d_rFkDrop d 1 n t
+  case typeCreate name asEnum values =>
+    have hn : CS (match (generalizing := false) name with | some n => rParts true n | none => []) := by
+      cases name with
+      | none => exact CS_nil
+      | some n => exact c_rParts n true
+    have x1 := CTE.appS (a := [S "CREATE TYPE "]) (by intro pw k; ev) hn
+    have x2 := CS.app x1 (CS_ite (c := asEnum = true) (a := [S " AS ", S "ENUM"]) (b := []) (by intro pw k hk; ev) CS_nil) (okK_ite (by ev) rfl)
+    exact CS.app x2 (CS_ite CS_nil (CS.app (CTE.appU (a := [S " ("]) (by intro pw k; ev) (d_rStrVs values true).toU) (CS_S ")") (by ev)))
+      (okK_ite rfl (by ev))
+  case typeDrop names ie opt =>
+    have h3h : okK (hK (match (generalizing := false) opt with | some o => [S " ", S (if (o == 0) = true then "CASCADE" else "RESTRICT")] | none => [])) = true := by
+      cases opt <;> ev
+    have h3 : CS (match (generalizing := false) opt with | some o => [S " ", S (if (o == 0) = true then "CASCADE" else "RESTRICT")] | none => []) := by
+      cases opt with
+      | none => exact CS_nil
+      | some o => exact CTE.appS (a := [S " "]) (by intro pw k; ev) (CS_S _)
+    exact CS.app (CT.appS (CT.appT (a := [S "DROP TYPE "]) (by intro pw k; ev) (CT_ite (by intro pw k; ev) CT_nil)) (d_rTypeRefs names true)) h3 h3h
+  case typeAlter name opt =>
+    have hn : CS (match (generalizing := false) name with | some n => rParts true n | none => []) := by
+      cases name with
+      | none => exact CS_nil
+      | some n => exact c_rParts n true
+    have hoh : okK (hK (match (generalizing := false) opt with | some o => rTypeAlterOpt o | none => [])) = true := by
+      cases opt with
+      | none => rfl
+      | some o => cases o <;> ev [rTypeAlterOpt]
+    have ho : CS (match (generalizing := false) opt with | some o => rTypeAlterOpt o | none => []) := by
+      cases opt with
+      | none => exact CS_nil
+      | some o => exact d_rTypeAlterOpt o
+    exact CS.app (CTE.appS (a := [S "ALTER TYPE "]) (by intro pw k; ev) hn) ho hoh
+  case extCreate name schema version cascade ine =>
+    have h1h : okK (hK (match (generalizing := false) schema with | some x => [S " WITH SCHEMA ", Piece.raw x.toList] | none => [])) = true := by cases schema <;> ev
+    have h2h : okK (hK (match (generalizing := false) version with | some x => [S " VERSION ", Piece.raw x.toList] | none => [])) = true := by cases version <;> ev
+    have h1 : CS (match (generalizing := false) schema with | some x => [S " WITH SCHEMA ", Piece.raw x.toList] | none => []) := by
+      cases schema <;> (intro pw k hk; ev)
+    have h2 : CS (match (generalizing := false) version with | some x => [S " VERSION ", Piece.raw x.toList] | none => []) := by
+      cases version <;> (intro pw k hk; ev)
+    have x1 := CT.appS (CT.appT (a := [S "CREATE EXTENSION "]) (by intro pw k; ev) (CT_ite (c := ine = true) (a := [S "IF NOT EXISTS "]) (b := []) (by intro pw k; ev) CT_nil)) (CS_raw name.toList)
+    exact CS.app (CS.app (CS.app x1 h1 h1h) h2 h2h) (CS_ite (CS_S _) CS_nil) (okK_ite (by ev) rfl)
+  case extDrop name ie cascade restrict =>
+    have x1 := CT.appS (CT.appT (a := [S "DROP EXTENSION "]) (by intro pw k; ev) (CT_ite (c := ie = true) (a := [S "IF EXISTS "]) (b := []) (by intro pw k; ev) CT_nil)) (CS_raw name.toList)
+    exact CS.app (CS.app x1 (CS_ite (CS_S _) CS_nil) (okK_ite (by ev) rfl)) (CS_ite (CS_S _) CS_nil) (okK_ite (by ev) rfl)
 
 end SeaQ.SafeN
